@@ -10,33 +10,34 @@ theorem C04_footprint_is_the_leaves_each_once (W : World) (m : Mode) (S : Shape)
   shapeFp_perm W m S hl
 
 -- @theorem C04_lock_returns_holding_exactly_the_leaves : a blocking lock/read on any lockable shape returns only with exactly the leaves added to the holds (and no fault happened); if it unwinds, the holds are as before
-theorem C04_lock_returns_holding_exactly_the_leaves (n : Nat) (W : World) (S : Shape)
-    (hl : lockable S = true) (m : Mode) (g : HG) (hd : g.depth = 0) :
-    wp (HoldSpec n) ((toRaw W S).acq m)
+theorem C04_lock_returns_holding_exactly_the_leaves (n : Nat) (ro : RankOpt) (W : World) (S : Shape)
+    (hl : lockable S = true) (hk : ShapeOK ro W S) (m : Mode) (g : HG) (hd : g.depth = 0)
+    (hlow : LowFp ro g.held (shapeFp W S m)) :
+    wp (HoldSpec n ro) ((toRaw W S).acq m)
       (fun _ g' => g'.held = g.held.plus (holdsOf S m) ∧ g'.depth = g.depth ∧ g'.panics = g.panics)
       (fun _ g' => g'.held = g.held ∧ g.panics < g'.panics) g := by
-  apply (toRaw_isLock (n := n) W S hl).acq m g _ _ hd
+  apply (toRaw_isLock (n := n) (ro := ro) W S hl hk).acq m g _ _ hd hlow
   · exact ⟨Held.plus_perm _ (shapeFp_perm W m S hl), rfl, rfl⟩
   · intro g' a _ c; exact ⟨a, c⟩
 
 -- @theorem C04_try_is_all_or_nothing : try_lock/try_read on any lockable shape either returns true holding exactly the leaves, or returns false with the holds (and everything else) exactly as before; if it unwinds the holds are as before
-theorem C04_try_is_all_or_nothing (n : Nat) (W : World) (S : Shape)
-    (hl : lockable S = true) (m : Mode) (g : HG) :
-    wp (HoldSpec n) ((toRaw W S).try_ m)
+theorem C04_try_is_all_or_nothing (n : Nat) (ro : RankOpt) (W : World) (S : Shape)
+    (hl : lockable S = true) (hk : ShapeOK ro W S) (m : Mode) (g : HG) :
+    wp (HoldSpec n ro) ((toRaw W S).try_ m)
       (fun b g' => if b then g'.held = g.held.plus (holdsOf S m) ∧ g'.panics = g.panics else g' = g)
       (fun _ g' => g'.held = g.held ∧ g.panics < g'.panics) g := by
-  apply (toRaw_isLock (n := n) W S hl).try_ m g
+  apply (toRaw_isLock (n := n) (ro := ro) W S hl hk).try_ m g
   · exact ⟨Held.plus_perm _ (shapeFp_perm W m S hl), rfl⟩
   · rfl
   · intro g' a _ c; exact ⟨a, c⟩
 
 -- @theorem C04_try_and_nonacquiring_calls_never_block : on every execution of every well-typed program, no blocking acquisition is issued between the start of a try_* (or non-acquiring) call and its end
-theorem C04_try_and_nonacquiring_calls_never_block (n : Nat) (C : Ctx) (prog : List Stmt)
-    (hok : ProgOK C prog) (u : UserSt)
+theorem C04_try_and_nonacquiring_calls_never_block (n : Nat) (ro : RankOpt) (C : Ctx) (prog : List Stmt)
+    (hok : ProgOK ro C prog) (u : UserSt)
     {tr₁ tr₂ : List (Op × Resp)} {m : Mode} {x : LockId} {r : Resp} {out : Outcome Unit UserSt}
     (hp : Path (program C prog u) (tr₁ ++ (.acq m true x, r) :: tr₂) out)
-    (ha : Admissible (HoldSpec n) {} tr₁) :
-    (ghostAfter (HoldSpec n) {} tr₁).depth = 0 :=
-  program_op_ok n C prog hok u hp ha
+    (ha : Admissible (HoldSpec n ro) {} tr₁) :
+    (ghostAfter (HoldSpec n ro) {} tr₁).depth = 0 :=
+  (program_op_ok n ro C prog hok u hp ha).1
 
 end HLV
